@@ -27,6 +27,8 @@ def suites : List (String × (String → String → CaseResult)) :=
   [("session", SessionSuite.runCase)] ++
   [("bounded", BoundedSuite.runCase)] ++
   [("chunks", ChunkSuite.runCase)] ++
+  [("consts", ConstsSuite.runCase)] ++
+  [("values", ValuesSuite.runCase)] ++
   []
 
 structure DAcc where
